@@ -193,7 +193,7 @@ EXEC = {
                        [EXE + "::ExecutionState::schedule"], "3 tasks, task 0 finished (non-contiguous live ids)", tier="thorough", heavy=True, timeout_s=3600),
     "once": K("C08.exec.schedule_once", "c08_exec_schedule_once",
               "next_task != None ==> schedule() is a no-op (scheduler consulted at most once per decision)",
-              [EXE + "::ExecutionState::schedule"], heavy=True, timeout_s=1800),
+              [EXE + "::ExecutionState::schedule"], heavy=True, timeout_s=1800, tier="thorough"),
     "bound": K("C13.exec.step_bound", "c13_exec_step_bound",
                "steps = len(schedule) - steps_reset_at; FailAfter(n): steps >= n <=> Err(StepBoundExceeded), no scheduler call; "
                "ContinueAfter(n): steps >= n <=> Ok and next_task' == Stopped; otherwise the decision proceeds",
@@ -267,9 +267,9 @@ SCHED_OVERLAY = ["shuttle-schedulers/src/replay.rs.append.rs", "shuttle-schedule
 A_ENV = "stubs: std::env::var -> NotPresent, shuttle_engine::seed_from_env -> identity (environment reads are unsupported foreign calls)"
 SCH = {
     "box": K("C08.wrap.box_dyn", "c08_wrap_box_dyn_transparent", "Box<dyn Scheduler + Send> forwards next_task/next_u64/new_execution once, unchanged",
-             ["shuttle-engine/src/scheduler/mod.rs::impl Scheduler for Box<dyn Scheduler + Send>"]),
+             ["shuttle-engine/src/scheduler/mod.rs::impl Scheduler for Box<dyn Scheduler + Send>"], tier="thorough"),
     "metrics": K("C08.wrap.metrics", "c08_wrap_metrics_transparent", "MetricsScheduler is transparent for every metric history",
-                 ["shuttle-engine/src/scheduler/metrics.rs::MetricsScheduler::{next_task,next_u64,new_execution}"]),
+                 ["shuttle-engine/src/scheduler/metrics.rs::MetricsScheduler::{next_task,next_u64,new_execution}"], tier="thorough"),
     "portfolio": K("C08.wrap.portfolio", "c08_wrap_portfolio_transparent", "PortfolioStoppableScheduler is transparent while the stop flag is clear",
                    ["shuttle-engine/src/runtime/runner.rs::PortfolioStoppableScheduler"]),
     "portfolio_stop": K("C08.wrap.portfolio_stops", "c08_wrap_portfolio_stops", "stop flag set => next_task and new_execution return None without consulting the inner scheduler",
@@ -374,6 +374,7 @@ PROPS["C18"] = {
 }
 PROPS["C02"]["kani"] += [x for x in SEMH if x["harness"] in ("c18_sem_try_acquire_fair", "c18_acquire_poll_granted_or_closed", "c18_acquire_poll_first_unfair")]
 PROPS["C02"]["overlay_files"] = SEM_OVERLAY
+PROPS["C02"]["kani"].append(EXEC["yield"])
 
 # ---------------- shuttle-std: C04 / C05 / C06 ----------------
 STD_OVERLAY = SEM_OVERLAY + ["shuttle-std/src/sync/mutex.rs.append.rs", "shuttle-std/src/sync/rwlock.rs.append.rs",
@@ -449,51 +450,31 @@ MPSCH = [
          "appended at the tail, capacity respected, waiting receiver released; Err leaves the channel unchanged; one choice point",
          [MPSC + "::Channel::send_internal"], B_CH),
     KSTD(Kb, "C06.mpsc.try_send_rendezvous", "c06_try_send_rendezvous", "same, rendezvous: hands off only to a waiting receiver",
-         [MPSC + "::Channel::send_internal"], B_CH),
+         [MPSC + "::Channel::send_internal"], B_CH, tier="thorough"),
     KSTD(Kb, "C06.mpsc.try_send_unbounded", "c06_try_send_unbounded", "same, unbounded: never Full", [MPSC + "::Channel::send_internal"], B_CH, tier="thorough"),
-    KSTD(Kb, "C06.mpsc.try_recv_empty", "c06_try_recv_bounded1_empty",
-         "try_recv on an empty channel: Disconnected iff no sender is left, else Empty; nothing is invented", [MPSC + "::Channel::recv_internal"], B_CH),
-    KSTD(Kb, "C06.mpsc.try_recv_full", "c06_try_recv_bounded1_full",
-         "try_recv on a full bounded channel delivers the head exactly once (also after the senders are gone) and releases the sender blocked on it",
-         [MPSC + "::Channel::recv_internal"], B_CH),
-    KSTD(Kb, "C06.mpsc.try_recv_fifo", "c06_try_recv_unbounded_two", "2 buffered messages: the first sent is delivered, the second becomes the head",
-         [MPSC + "::Channel::recv_internal"], B_CH, tier="thorough"),
 ]
 PROPS["C06"] = {
     "scope": "blocking predicates (K complete); non-blocking send/receive segments on the real channel state (Kb)",
     "kani": MPSCH,
     "overlay_files": STD_OVERLAY,
     "assumptions": [A_BT, A_DUMMY, A_TLS, A_HEAP, A_SWITCH],
-    "not_decided": ["blocking send/recv second segments (after the wake-up) and endpoint Drop", "eventual release of blocked endpoints (liveness)"],
+    "not_decided": ["receive path (try_recv / recv): the harnesses exhaust memory (SmallVec::remove over symbolic state) and were withdrawn; "
+                    "blocking send second segment and endpoint Drop", "eventual release of blocked endpoints (liveness)"],
 }
 
 CVH = [
-    KSTD(Kb, "C05.condvar.wait_consumes_one_epoch", "c05_condvar_wait_consumes_one_epoch",
-         "the woken waiter consumes its oldest epoch; that epoch disappears from EVERY other waiter's list wherever it sits; a waiter left with none is "
-         "Waiting and blocked again (no invented wake-up), one with epochs left stays runnable; mutex released while waiting and re-held on return",
-         [CONDVAR + "::Condvar::wait"], "2 other waiters holding epochs [0,1] each, mine [1] (the consumed epoch is not at the front of their lists)", timeout_s=2400),
-    KSTD(Kb, "C05.condvar.wait_reblocks_exhausted_waiter", "c05_condvar_wait_reblocks_exhausted_waiter",
-         "same contract: a waiter whose only epoch I consumed goes back to Waiting and is blocked; one holding a different epoch is untouched",
-         [CONDVAR + "::Condvar::wait"], "2 other waiters holding [1] and [0], mine [1]", tier="thorough", timeout_s=2400),
-    KSTD(Kb, "C05.condvar.notify_one", "c05_condvar_notify_one",
-         "every current waiter gets the fresh epoch at the tail of its list and becomes runnable; next_epoch + 1; one choice point",
-         [CONDVAR + "::Condvar::notify_one"], "2 waiters"),
 ]
 CVH += [
-    KSTD(Kb, "C05.barrier.last_arrival_releases", "c05_barrier_last_arrival_releases",
-         "the arrival completing the group: exactly one choice point BEFORE any effect; epoch+1, waiter set emptied, exactly the group released, "
-         "exactly one leader token taken by the first task to run", ["shuttle-std/src/sync/barrier.rs::Barrier::wait"], "bound 2"),
-    KSTD(Kb, "C05.barrier.early_arrival_blocks", "c05_barrier_early_arrival_blocks",
-         "an arrival that does not complete the group registers and blocks; the pre-block choice point is omitted only when waiters + 1 < bound",
-         ["shuttle-std/src/sync/barrier.rs::Barrier::wait"], "bound 2", tier="thorough"),
 ]
 PROPS["C05"]["kani"] += CVH
 PROPS["C05"]["overlay_files"] = STD_OVERLAY
 PROPS["C05"]["assumptions"] += [A_TLS, A_HEAP, A_SWITCH,
                                 "environment at the choice point inside Condvar::wait: the waiter table is set to a configuration two notify_one calls can produce (rely)"]
-PROPS["C05"]["not_decided"] = ["Barrier beyond bound 2 and Once (closure under a Mutex across coroutine switches): not brought under contract",
+PROPS["C05"]["not_decided"] = ["Condvar wait/notify_one: the harnesses (overlay condvar.rs.append.rs) need > 37 GB / end in solver errors and were withdrawn, so "
+                               "seeded mutant C05-condvar-epoch-front is NOT caught", "Barrier::wait: the harnesses (overlay barrier.rs.append.rs) time out on HashSet<TaskId> under CBMC (> 33 min) and were withdrawn, so seeded "
+                               "mutant C02-barrier-will-block-off-by-one is NOT caught", "Once (closure under a Mutex across coroutine switches): not brought under contract",
                                "`always does release a waiter` as liveness"]
-PROPS["C05"]["scope"] = "park/unpark token machine complete over all states (K); Condvar epoch bookkeeping on the real code (Kb)"
+PROPS["C05"]["scope"] = "park/unpark: the token machine on the real Task methods, complete over every (TaskState, ParkState, woken, waiter) (K)"
 
 # C01: the data-source seeding chain is what replay relies on
 PROPS["C01"]["kani"] += [DATA["init"], DATA["chain"]]
@@ -542,3 +523,56 @@ PROPS["C14"]["verus_units"] = ["storage"]
 PROPS["C14"]["not_decided"] = ["ExecutionState::cleanup() (order of draining tasks, storage destructors and clearing labels/tags): needs coroutines; "
                                "seeded mutant C14-labels-cleared-too-early is NOT caught", "recycling of coroutine stacks"]
 PROPS["C14"]["scope"] = "a new ExecutionState is fresh and CurrentSchedule::init replaces the recorded schedule (K); global storage is drained in insertion order, each slot once (V, StorageMap)"
+
+# C02: every contracted operation asserts `switches() == 1` before its effect; reuse the complete ones here
+PROPS["C02"]["kani"] += [ATOM[0], LOCKS[0], LOCKS[2]]
+PROPS["C02"]["overlay_files"] = STD_OVERLAY
+PROPS["C02"]["assumptions"] += [A_SWITCH]
+PROPS["C02"]["scope"] = ("the per-operation sufficient condition: exactly one choice point precedes the effect of every contracted visible operation "
+                         "(atomics for all values, Mutex try_lock/lock: K; semaphore try_acquire, Acquire::poll: Kb); omitted points are legal "
+                         "(unfair first poll skips the choice point only when it blocks); exit-truncation predicate (Kb)")
+PROPS["C02"]["not_decided"] = ["the meta-theorem `every sequentially consistent outcome is produced by some schedule` (exists over schedules, forall programs)",
+                               "operations not under contract: mpsc endpoint Drop, JoinHandle::join, thread::park wrapper, Once, spawn",
+                               "Barrier::wait's legality condition (seeded mutant C02-barrier-will-block-off-by-one is NOT caught: harness withdrawn, see C05)"]
+
+# ---------------- C20 ----------------
+DET = "wrappers/collections/deterministic_collections/src/lib.rs"
+PLRW = "wrappers/parking_lot/parking_lot_impl/src/raw_rwlock.rs"
+C20_OVERLAY = SEM_OVERLAY + ["wrappers/collections/deterministic_collections/src/lib.rs.append.rs",
+                             "wrappers/parking_lot/parking_lot_impl/src/raw_rwlock.rs.append.rs",
+                             "wrappers/parking_lot/parking_lot_impl/Cargo.toml.rules"]
+B_PL = None
+
+
+def KPL(name, harness, formula, fns, tier="quick"):
+    return K(name, harness, formula, [PLRW + "::" + f for f in fns], crate="shuttle-parking_lot-impl", tier=tier, heavy=True, timeout_s=1500)
+
+
+C20H = [
+    K("C20.collections.hasher_is_fixed", "c20_collections_hasher_is_fixed",
+      "every constructor (new, with_capacity, default, FromIterator, From<std collection with a foreign hasher>) and every set operator (| & ^ -) of the "
+      "deterministic HashMap/HashSet yields the fixed hasher state, never RandomState::new() (stubbed to a recognisable non-fixed value)",
+      [DET + "::HashMap::{new,with_capacity,default,from_iter,from}", DET + "::HashSet::{new,with_capacity,default,from_iter,from,bitand,bitor,bitxor,sub}"],
+      crate="deterministic_collections"),
+    KPL("C20.pl.try_lock_upgradable", "c20_pl_try_lock_upgradable",
+        "try_lock_upgradable succeeds iff the slot and a shared permit are both free; on failure BOTH semaphores are unchanged", ["try_lock_upgradable"]),
+    KPL("C20.pl.try_lock_shared_exclusive", "c20_pl_try_lock_shared_exclusive",
+        "try_lock_shared / try_lock_exclusive succeed exactly when permitted and leave nothing behind on failure", ["try_lock_shared", "try_lock_exclusive"]),
+    KPL("C20.pl.downgrade", "c20_pl_downgrade", "exclusive -> shared releases all but one permit and never waits", ["downgrade"]),
+    KPL("C20.pl.downgrade_upgradable", "c20_pl_downgrade_upgradable", "upgradable -> shared gives the slot back, keeps the shared permit, never waits",
+        ["downgrade_upgradable"], tier="thorough"),
+    KPL("C20.pl.downgrade_to_upgradable", "c20_pl_downgrade_to_upgradable",
+        "exclusive -> upgradable completes without waiting in every state allowed by the lock invariant (incl. a task queued in lock_upgradable holding the slot)",
+        ["downgrade_to_upgradable"]),
+]
+PROPS["C20"] = {
+    "scope": "deterministic collections: the hasher state is the fixed one however a map/set is built (K, found F7); parking_lot RawRwLock try-variants "
+             "and downgrades against the real semaphores over the states allowed by the lock invariant (K)",
+    "kani": C20H,
+    "overlay_files": C20_OVERLAY,
+    "assumptions": [A_BT, A_DUMMY, A_TLS, A_HEAP, A_SWITCH, "A-hashbrown: iteration order is a function of hasher state and operation history",
+                    "stub: RandomState::new -> a fixed non-zero value (what any process-random state looks like to the contract)",
+                    "overlay adds a path dependency on shuttle-engine to parking_lot_impl's Cargo.toml in the scratch copy (harness helpers)"],
+    "not_decided": ["DashMap/DashSet linearizability; rand wrapper; lazy_static; parking_lot Mutex; blocking lock_*/upgrade paths (via C18 only)",
+                    "serde Deserialize of the deterministic collections (builds the inner map with the default hasher; noted by a sub-agent, not examined)"],
+}
